@@ -215,6 +215,8 @@ def rule_keys_table(ctx):
 
 
 def run(ctx):
+    from ..rules import round5b as _R5f
+    _R5f.rule_successor_index_bounded(ctx)
     from ..rules import round5 as _R5e
     _R5e.rule_octave_from_letter(ctx)
     _R5e.rule_integer_accumulators(ctx, ['partitura.musicanalysis.key_identification', 'partitura.musicanalysis.pitch_spelling'])
